@@ -128,6 +128,8 @@ type Server struct {
 	// ends and ListStorm is set.
 	MaxLists  int
 	ListStorm bool
+	pages     map[string]pagedRest
+	pageSeq   int
 	// OnList is invoked (outside the lock) when a List call starts.
 	OnList func(n int)
 
@@ -297,6 +299,36 @@ type notAnObject struct{ metav1.TypeMeta }
 func (n *notAnObject) DeepCopyObject() runtime.Object { c := *n; return &c }
 
 func (s *Server) List(ctx context.Context, opts metav1.ListOptions) (runtime.Object, error) {
+	if opts.Continue != "" {
+		s.mu.Lock()
+		pr, ok := s.pages[opts.Continue]
+		delete(s.pages, opts.Continue)
+		s.mu.Unlock()
+		if !ok {
+			return nil, fmt.Errorf("continue token %q expired", opts.Continue)
+		}
+		l := s.NewList()
+		items := pr.items
+		if opts.Limit > 0 && int64(len(items)) > opts.Limit {
+			rest := items[opts.Limit:]
+			items = items[:opts.Limit]
+			s.mu.Lock()
+			s.pageSeq++
+			tok := fmt.Sprintf("page-%d", s.pageSeq)
+			s.pages[tok] = pagedRest{items: rest, rv: pr.rv}
+			s.mu.Unlock()
+			defer func() {
+				if la, err := meta.ListAccessor(l); err == nil {
+					la.SetContinue(tok)
+				}
+			}()
+		}
+		_ = meta.SetList(l, items)
+		if la, err := meta.ListAccessor(l); err == nil {
+			la.SetResourceVersion(pr.rv)
+		}
+		return l, nil
+	}
 	s.mu.Lock()
 	n := len(s.lists) + 1
 	var f ListFault
@@ -400,7 +432,31 @@ func (s *Server) List(ctx context.Context, opts metav1.ListOptions) (runtime.Obj
 			la.SetResourceVersion("")
 		}
 	}
+	// limit / continue, as an API server honours them: a page of the snapshot and a
+	// token for the rest (the pages of one snapshot are kept under their token)
+	if opts.Limit > 0 {
+		if items, err := meta.ExtractList(l); err == nil && int64(len(items)) > opts.Limit {
+			rest := items[opts.Limit:]
+			_ = meta.SetList(l, items[:opts.Limit])
+			if la, err := meta.ListAccessor(l); err == nil {
+				s.mu.Lock()
+				s.pageSeq++
+				tok := fmt.Sprintf("page-%d", s.pageSeq)
+				if s.pages == nil {
+					s.pages = map[string]pagedRest{}
+				}
+				s.pages[tok] = pagedRest{items: rest, rv: la.GetResourceVersion()}
+				s.mu.Unlock()
+				la.SetContinue(tok)
+			}
+		}
+	}
 	return finish(l, nil)
+}
+
+type pagedRest struct {
+	items []runtime.Object
+	rv    string
 }
 
 type stream struct {
